@@ -1,0 +1,17 @@
+//go:build verif
+
+package slogutil
+
+import "sync"
+
+// SimHook, when set, is called at every scheduling-relevant point of this
+// package (before the acquisition of the encoder mutex).  It only exists in
+// builds with the verif tag and is used by the deterministic simulator.
+var SimHook func(site string, mu *sync.Mutex)
+
+// simPoint forwards to SimHook if it is set.
+func simPoint(site string, mu *sync.Mutex) {
+	if h := SimHook; h != nil {
+		h(site, mu)
+	}
+}
